@@ -61,7 +61,7 @@ SRV_TRUSTED = ["in-process Server driven through process_events() on loopback UD
 SRV_ASSUME = ["send_to never fails on loopback (the failed-send branch exists in the model but is not exercised)",
               "model theorems assume the signature scheme is complete (verify(pk(seed), m, sign(seed, m))) and outputs have their standard lengths; nothing about unforgeability"]
 
-CLAIMED_SRV = {'C12', 'C20', 'C08', 'C09'}
+CLAIMED_SRV = {'C12', 'C20', 'C08', 'C09', 'C02', 'C07'}
 
 def _srv(pid, mode, theorems, module, rule, level_text, technique, extra=None, streams=None, min_nt=20):
     d = {
